@@ -18,6 +18,7 @@ fn main() {
         match args[1].as_str() {
             "c04_history" => println!("{}", serde_json::to_string(&harness::fuzz::raw_case(&bytes)).unwrap()),
             "c10_frag" => println!("{}", serde_json::to_string(&harness::fuzz::frag_case(&bytes)).unwrap()),
+            "c01_scenario" => println!("{}", serde_json::to_string(&harness::fuzz::valid_case(&bytes)).unwrap()),
             t => eprintln!("no structured decoder registered for {}", t),
         }
         return;
